@@ -7,6 +7,7 @@ package workload
 
 import (
 	"fmt"
+	"strings"
 
 	h "verif/internal/harness"
 )
@@ -471,6 +472,58 @@ func W1R(sink Sink) {
 	}
 }
 
+// W1RL: LONG whitespace runs (around 64, 128, 256, 512, 1024 and 4096 bytes) before a token that is
+// followed by 0..9 more whitespace bytes and a second token or a foreign byte: windowed or
+// word-at-a-time whitespace scanners hand over to the byte loop somewhere inside such a run
+// (seeded changes C13r6-m2: a 128-byte window with a stale bound; C05r6-m1: a wrong bit-scan
+// direction when the word holding the token ends in spaces).
+func W1RL(sink Sink) {
+	toks := []string{"7", "-", "x", "null", `"a"`, "[1]", "true", "\x00", "-0.5e3", "{}"}
+	seconds := []string{"", "9", "x", ",", "null"}
+	c := &h.Case{Family: "W1RL"}
+	c.DescFn = func(c *h.Case) string {
+		return fmt.Sprintf("%d whitespace bytes (pattern %d), token %q, %d more whitespace bytes, then %q", c.P[0], c.P[3], toks[c.P[1]], c.P[2]>>4, seconds[c.P[2]&15])
+	}
+	wsb := " \t\n\r"
+	var lens []int
+	for _, B := range []int{64, 128, 256, 512, 1024, 4096} {
+		for d := -9; d <= 9; d++ {
+			lens = append(lens, B+d)
+		}
+	}
+	buf := make([]byte, 0, 4200)
+	for _, L := range lens {
+		for pat := 0; pat < 2; pat++ {
+			for ti, tok := range toks {
+				for gap := 0; gap <= 9; gap++ {
+					for si, sec := range seconds {
+						if L > 300 && (gap%3 != 1 || si > 2) {
+							continue
+						}
+						buf = buf[:0]
+						for i := 0; i < L; i++ {
+							if pat == 0 {
+								buf = append(buf, ' ')
+							} else {
+								buf = append(buf, wsb[(i+L)%4])
+							}
+						}
+						buf = append(buf, tok...)
+						for i := 0; i < gap; i++ {
+							buf = append(buf, ' ')
+						}
+						buf = append(buf, sec...)
+						c.Input = buf
+						c.Desc = ""
+						c.P = [4]int{L, ti, gap<<4 | si, pat}
+						sink(c)
+					}
+				}
+			}
+		}
+	}
+}
+
 // W1D digit-run family: numbers whose integer, fraction or exponent part is a run of 1..40
 // digits with one foreign byte at every offset of the run, at top level and as array / object
 // members (the same position-sensitivity concern as W1R, for the digit-scanning loops).
@@ -691,6 +744,9 @@ func W1Depth(sink Sink) {
 	pats := [][]int{{0}, {1}, {2}, {3}, {0, 2}, {1, 3}}
 	c := &h.Case{Family: "W1Dp"}
 	c.DescFn = func(c *h.Case) string {
+		if c.P[3] > 0 {
+			return fmt.Sprintf("nest pattern %v for %d levels, then one level opened by unit %q, inner %q", pats[c.P[0]], c.P[1]-1, NestUnits[c.P[3]-1].Open, NestInner[c.P[2]])
+		}
 		return fmt.Sprintf("nest pattern %v depth %d inner %q", pats[c.P[0]], c.P[1], NestInner[c.P[2]])
 	}
 	for pi, pat := range pats {
@@ -700,6 +756,37 @@ func W1Depth(sink Sink) {
 				c.Desc = ""
 				c.P = [4]int{pi, d, ii, 0}
 				sink(c)
+			}
+		}
+	}
+	// the LAST opener varied over every nest unit (every push site of the machines) at every depth
+	// 1..130 and around larger powers of two and their sums (growth steps of the return stack;
+	// seeded change C02r6-m2: one of 14 push sites does not grow when the stack is exactly full)
+	depths := []int{}
+	for d := 1; d <= 130; d++ {
+		depths = append(depths, d)
+	}
+	for _, d := range []int{256, 384, 512, 640, 768, 896, 1024, 1536, 2048, 4096, 8192} {
+		depths = append(depths, d-1, d, d+1)
+	}
+	for pi, pat := range pats {
+		if pi >= 4 {
+			break
+		}
+		for _, d := range depths {
+			if d > 130 && pi >= 2 && d > 1100 {
+				continue // long object towers only up to ~1000 levels
+			}
+			for ui := range NestUnits {
+				for ii, inner := range []string{"", "0"} {
+					c.Input = BuildNestFinal(pat, d, ui, inner)
+					c.Desc = ""
+					c.P = [4]int{pi, d, ii, ui + 1}
+					if ii == 1 {
+						c.P[2] = 1
+					}
+					sink(c)
+				}
 			}
 		}
 	}
@@ -872,6 +959,52 @@ func W1First(sink Sink) {
 				c.Input = buf
 				c.Desc = ""
 				c.P = [4]int{pi, b, ci, 0}
+				sink(c)
+			}
+		}
+	}
+}
+
+// W1Len: every length 1..600 (and 1023..1025, 4095..4097, 65535..65537) of each repeatable unit of
+// the grammar - integer, fraction and exponent digits, string bytes, escapes, whitespace - alone
+// and inside an array, plus the exponent-digit runs followed by a second sign. Counters narrower
+// than int wrap at 256 or 65536 (seeded change C01r6-m2: exponent digits counted in a uint8).
+func W1Len(sink Sink) {
+	type unit struct{ pre, rep, suf string }
+	units := []unit{
+		{"", "7", ""}, {"-", "3", ""}, {"0.", "5", ""}, {"1.5", "0", "1"}, {"1e", "0", "7"}, {"1E+", "9", ""}, {"2.5e-", "0", "3"},
+		{"1e", "4", "-5"}, {"1e", "0", "+1"}, {"0.", "1", "e+"},
+		{`"`, "a", `"`}, {`"`, `\n`, `"`}, {`"x`, "\xc3\xa9", `"`}, {`"`, `\u00e9`, `"`},
+		{"", " ", "1"}, {"[1", " ", "]"}, {"[", "\n", "1]"}, {`{"a"`, "\t", ":1}"},
+		{"[", "0,", "0]"}, {"[", "[],", "[]]"}, {"{", `"k":1,`, `"z":0}`},
+	}
+	var lens []int
+	for L := 1; L <= 600; L++ {
+		lens = append(lens, L)
+	}
+	lens = append(lens, 1023, 1024, 1025, 4095, 4096, 4097, 65535, 65536, 65537)
+	c := &h.Case{Family: "W1Ln"}
+	c.DescFn = func(c *h.Case) string {
+		u := units[c.P[0]]
+		return fmt.Sprintf("%q + %d x %q + %q, wrapping %d", u.pre, c.P[1], u.rep, u.suf, c.P[2])
+	}
+	for ui, u := range units {
+		for _, L := range lens {
+			if L > 5000 && len(u.rep) > 2 {
+				continue
+			}
+			body := u.pre + strings.Repeat(u.rep, L) + u.suf
+			for w := 0; w < 2; w++ {
+				if w == 1 && (u.pre == "" && u.rep == " ") {
+					continue
+				}
+				if w == 0 {
+					c.Input = []byte(body)
+				} else {
+					c.Input = []byte("[0," + body + "]")
+				}
+				c.Desc = ""
+				c.P = [4]int{ui, L, w, 0}
 				sink(c)
 			}
 		}
